@@ -2,12 +2,12 @@
 import json
 import vlib
 from vlib import Corr, Search, Failure, cz, cnat
-import c27_impl
+import c27_impl, c27_scan
 
 ID = 'C27'
 LEVEL = 'proof'
 PROPS = ['Props/C27.v', 'Findings/C27.v']
-GEN = []
+GEN = [('Gen/C27AttrGet.v', c27_scan.generate)]
 TRUSTED = [
     'hand-written model Model/C27Inherit.v of EntityMeta.__init__ (direct bases, _all_bases_, _subclasses_, _root_, diamond rule), Discriminator.code2cls, '
     '_construct_discriminator_criteria_, _parse_row_ class choice, _get_from_identity_map_ class refinement and FuncIsinstanceMonad.call; tied on every run by '
@@ -27,6 +27,7 @@ RULE = ('seeded random hierarchies: 1..7 classes, 1..2 trees, single / multiple 
         'int Discriminator column, a stream of invalid definitions (bases from different trees) and of duplicate discriminator values; correspondence = one vm_compute boolean per '
         'observable (valid, all_bases, subclasses, root, criteria, code2cls entry, isinstance condition); search = create objects of every class, then reload in fresh sessions by '
         'select over every class, get by pk through every class of the tree, relationship navigation, isinstance queries (positive / negated, foreign-tree classes); '
+        'chains Link.h.ref through unloaded placeholders (class at first access), many-to-many collections typed as the root, references of unpickled objects, '
         'lookup by pk through every class after the object entered the identity map as an unloaded seed of a base-typed reference (falsy discriminator values 0 / \'\' on non-leaf classes included); '
         'non-trivial = hierarchies with at least one subclass (distinct specs counted)')
 
@@ -332,6 +333,34 @@ def check_hierarchy(spec, rng, n_isinst=8):
                             'C27 seed-lookup: with a K%d-typed reference to the object loaded first (seed=%s), K%d.get(pk=%r) gives class %r; the object was created as K%d, expected %r (hierarchy %s)'
                             % (c, was_seed, e, pk, got, k, want, json.dumps(spec)), {'spec': spec, 'route': 'seed-lookup'})
                 fails.append(f)
+    # R7 chains through unloaded placeholders: Link row loaded, link.h is a placeholder, link.h.ref<c> is fetched inside Attribute.get
+    for lpk, hpk in sorted(b.links.items()):
+        c, r, pk = b.seed_holders[hpk]
+        first, again = c27_impl.chain_lookup(b, lpk, c)
+        evals += 1
+        if first != created[(r, pk)] or again != created[(r, pk)]:
+            fails.append(Failure(key_for(spec, 'chain', 'first-access' if first != created[(r, pk)] else 'second-access'),
+                                 'C27 chain: Link[%r].h.ref%d (the Holder is an unloaded placeholder when the reference is read) has class %r at first access, %r at the second; the object was created as K%d (hierarchy %s)'
+                                 % (lpk, c, first, again, created[(r, pk)], json.dumps(spec)), {'spec': spec, 'route': 'chain'}))
+            break
+    # R8 items of a many-to-many collection typed as the root, class at first access
+    for r in b.roots:
+        try: got = c27_impl.many_iter(b, r)
+        except Exception as ex: got = 'EXC %s' % type(ex).__name__
+        evals += 1
+        want = sorted(b.many[r][1])
+        if got != want:
+            fails.append(Failure('m2m-collection-item-has-base-class' if not has_duplicates(spec) and isinstance(got, list) and [g[0] for g in got] == [w[0] for w in want]
+                                 and all(g[1] == r for g, w in zip(got, want) if g != w) else key_for(spec, 'm2m', 'other'),
+                                 'C27 m2m: iterating Holder.many%d gives (pk, class at first access) %r, created %r (hierarchy %s)' % (r, got, want, json.dumps(spec)), {'spec': spec, 'route': 'm2m'}))
+    # R9 a reference of an unpickled object
+    for hpk, (c, r, pk) in sorted(b.seed_holders.items())[:6]:
+        got = c27_impl.unpickled_ref(b, hpk, c)
+        evals += 1
+        if got != created[(r, pk)]:
+            fails.append(Failure('unpickled-reference-has-base-class' if got == c and not has_duplicates(spec) else key_for(spec, 'unpickle', 'other'),
+                                 'C27 unpickle: the K%d-typed reference of an unpickled Holder has class %r, the object was created as K%d (hierarchy %s)' % (c, got, created[(r, pk)], json.dumps(spec)),
+                                 {'spec': spec, 'route': 'unpickle'}))
     # R6 two rows referencing one object through attributes typed by unrelated (sibling) classes, loaded in one session
     by_obj = {}
     for hpk, (c, r, pk) in sorted(b.seed_holders.items()): by_obj.setdefault((r, pk), []).append((hpk, c))
